@@ -51,6 +51,12 @@ def lift_float(x: float) -> Fraction:
     x = float(x)
     if math.isnan(x) or math.isinf(x):
         raise TypeError("non-finite float in symbolic arithmetic")
+    if x != 0.0 and abs(x) < 1e-60:
+        # regulariser constants such as the `+ 1e-100` guarding 0/0 are dropped (modelling
+        # choice, DESIGN 1.4): over the reals they would turn exact identities into
+        # identities-up-to-1e-100
+        _lift_stats["lifted"] += 1
+        return Fraction(0)
     f = Fraction(x)
     if f.denominator == 1:
         return f
